@@ -54,6 +54,7 @@ type Config struct {
 	MaxSteps   int
 	MaxPaths   int
 	SolverName string
+	SolverINT  string
 	LogDir     string
 	Verbose    bool
 	Budget     time.Duration
@@ -89,6 +90,11 @@ func (e *Exec) resetPath(prefix []Decision) {
 	e.symAssert = false
 	e.locCell = nil
 	e.pcDirty = false
+	e.known = map[string]bool{}
+	e.radixes = map[string]*radix{}
+	e.divCache = map[string][2]Int{}
+	e.floorCache = map[string]*Term{}
+	e.refine = map[string][2]int64{}
 }
 
 // runInit executes the package initialisers of astisub and the whitelisted dependencies.
@@ -101,6 +107,7 @@ func (e *Exec) runInit() {
 // runPath executes one path. It returns the sibling prefixes discovered and how the path ended.
 func (e *Exec) runPath(h *ssa.Function, prefix []Decision) (end string, msg string) {
 	e.resetPath(prefix)
+	e.sol = e.solBV
 	e.sol.Push()
 	defer func() {
 		e.sol.Pop()
@@ -224,8 +231,15 @@ func exploreHarness(p *Program, h *ssa.Function, cfg Config) *HarnessResult {
 			mu.Unlock()
 			return
 		}
-		defer sol.Close()
-		e := &Exec{P: p, sol: sol, tier: cfg.Tier, maxSteps: cfg.MaxSteps,
+		solI, err := NewSolver(cfg.SolverINT, cfg.TimeoutMs, strings.Replace(logPath, ".smt2", ".int.smt2", 1))
+		if err != nil {
+			mu.Lock()
+			res.EngineErr = append(res.EngineErr, "solver start: "+err.Error())
+			mu.Unlock()
+			return
+		}
+		defer func() { sol.Close(); solI.Close() }()
+		e := &Exec{P: p, sol: sol, solBV: sol, solINT: solI, tier: cfg.Tier, maxSteps: cfg.MaxSteps,
 			reached: map[string]bool{}, asserts: map[string]int{}, bounds: map[string]int{},
 			funcsSeen: map[string]bool{}, intrUsed: map[string]bool{}, stubsUsed: map[string]bool{}, hname: h.Name()}
 		npaths := 0
@@ -252,15 +266,11 @@ func exploreHarness(p *Program, h *ssa.Function, cfg Config) *HarnessResult {
 			mu.Unlock()
 
 			npaths++
-			if npaths%200 == 0 || sol.dead {
+			if npaths%200 == 0 || sol.dead || solI.dead {
 				// keep solver memory bounded
-				sol.Close()
-				ns, err := NewSolver(cfg.SolverName, cfg.TimeoutMs, "")
-				if err == nil {
-					ns.Queries, ns.Sat, ns.Unsat, ns.Unknown, ns.Errors, ns.Time = sol.Queries, sol.Sat, sol.Unsat, sol.Unknown, sol.Errors, sol.Time
-					sol = ns
-					e.sol = ns
-				}
+				sol = restartSolver(sol, cfg.SolverName, cfg.TimeoutMs)
+				solI = restartSolver(solI, cfg.SolverINT, cfg.TimeoutMs)
+				e.solBV, e.solINT, e.sol = sol, solI, sol
 			}
 			end, msg := e.runPath(h, prefix)
 
@@ -332,12 +342,14 @@ func exploreHarness(p *Program, h *ssa.Function, cfg Config) *HarnessResult {
 			cond.Broadcast()
 		}
 		mu.Lock()
-		res.Queries += sol.Queries
-		res.Sat += sol.Sat
-		res.Unsat += sol.Unsat
-		res.Unknown += sol.Unknown
-		res.SolverErr += sol.Errors
-		res.SolverTime += sol.Time
+		for _, so := range []*Solver{sol, solI} {
+			res.Queries += so.Queries
+			res.Sat += so.Sat
+			res.Unsat += so.Unsat
+			res.Unknown += so.Unknown
+			res.SolverErr += so.Errors
+			res.SolverTime += so.Time
+		}
 		for k := range e.funcsSeen {
 			res.Funcs[k] = true
 		}
@@ -414,4 +426,14 @@ func (e *Exec) stackStr(n int) string {
 		s += " <- " + e.stack[i].String()
 	}
 	return s
+}
+
+func restartSolver(old *Solver, name string, timeout int) *Solver {
+	ns, err := NewSolver(name, timeout, "")
+	if err != nil {
+		return old
+	}
+	ns.Queries, ns.Sat, ns.Unsat, ns.Unknown, ns.Errors, ns.Time = old.Queries, old.Sat, old.Unsat, old.Unknown, old.Errors, old.Time
+	old.Close()
+	return ns
 }
